@@ -330,3 +330,127 @@ def random_digraph(r, nmax=12, nmin=1):
         for a, b in zip(cyc, cyc[1:] + cyc[:1]):
             rows[a] |= 1 << b
     return tuple(rows)
+
+
+# --------------------------------------------------------------------------
+# generic per-language enumerators / random generators (C08-C11)
+
+def enum_lang(logic, depth, leaves=LEAVES, cap=None, r=None):
+    """Formulas (trees) of the language `logic` up to operator depth `depth`.
+    PL: Boolean operators; LTL: path formulas plus A(g) at the root; CTLS:
+    path formulas with A/E as unary operators; CTL: state formulas.  With
+    cap, each level keeps a seeded sample of at most cap new formulas."""
+    if logic == 'CTL':
+        out = enum_ctl(depth, leaves, leaf_operand=False) if cap is None \
+            else _enum_capped(('not',), (), depth, leaves, cap, r, ctl=True)
+        return out
+    if logic == 'PL':
+        un, bi = ('not',), ('and', 'or', 'imply')
+    elif logic == 'LTL':
+        un, bi = ('not', 'X', 'F', 'G'), ('and', 'or', 'imply', 'U', 'R')
+    else:
+        un, bi = ('not', 'X', 'F', 'G', 'A', 'E'), \
+            ('and', 'or', 'imply', 'U', 'R')
+    out = _enum_capped(un, bi, depth, leaves, cap, r)
+    if logic == 'LTL':
+        out = out + [('A', g) for g in out]
+    return out
+
+
+def _enum_capped(un, bi, depth, leaves, cap, r, ctl=False):
+    allf = list(leaves)
+    for d in range(1, depth + 1):
+        new = []
+        if ctl:
+            for a in allf:
+                new.append(('not', a))
+                for q in 'AE':
+                    for op in 'XFG':
+                        new.append((q, (op, a)))
+            for a in allf:
+                for b in allf:
+                    for op in ('and', 'or', 'imply'):
+                        new.append((op, a, b))
+                    for q in 'AE':
+                        new.append((q, ('U', a, b)))
+                        new.append((q, ('R', a, b)))
+        else:
+            for a in allf:
+                for op in un:
+                    new.append((op, a))
+            for a in allf:
+                for b in allf:
+                    for op in bi:
+                        new.append((op, a, b))
+        seen = set(allf)
+        new = [f for f in new if f not in seen]
+        if cap is not None and len(new) > cap:
+            new = r.sample(new, cap)
+        allf.extend(new)
+    return allf
+
+
+def random_lang(r, logic, depth, atoms=('p', 'q'), nary=True):
+    """Random formula of the language (state or path as the language allows),
+    n-ary and/or of arity 2..4."""
+    def leaf():
+        if r.random() < 0.15:
+            return ('bool', r.random() < 0.5)
+        return ('ap', r.choice(atoms))
+
+    def boolean(rec, depth):
+        op = r.choice(['and', 'or', 'imply', 'not'])
+        if op == 'not':
+            return ('not', rec(depth - 1))
+        if op == 'imply':
+            return ('imply', rec(depth - 1), rec(depth - 1))
+        n = r.choice([2, 2, 3, 4]) if nary else 2
+        return (op,) + tuple(rec(depth - 1) for _ in range(n))
+
+    def pl(depth):
+        if depth <= 0 or r.random() < 0.15:
+            return leaf()
+        return boolean(pl, depth)
+
+    def ltl(depth):
+        if depth <= 0 or r.random() < 0.15:
+            return leaf()
+        if r.random() < 0.45:
+            return boolean(ltl, depth)
+        op = r.choice('XFGUR')
+        if op in 'XFG':
+            return (op, ltl(depth - 1))
+        return (op, ltl(depth - 1), ltl(depth - 1))
+
+    def ctls(depth):
+        if depth <= 0 or r.random() < 0.15:
+            return leaf()
+        k = r.random()
+        if k < 0.35:
+            return boolean(ctls, depth)
+        if k < 0.55:
+            return (r.choice('AE'), ctls(depth - 1))
+        op = r.choice('XFGUR')
+        if op in 'XFG':
+            return (op, ctls(depth - 1))
+        return (op, ctls(depth - 1), ctls(depth - 1))
+
+    def ctl(depth):
+        if depth <= 0 or r.random() < 0.15:
+            return leaf()
+        if r.random() < 0.4:
+            return boolean(ctl, depth)
+        q = r.choice('AE')
+        op = r.choice('XFGUR')
+        if op in 'XFG':
+            return (q, (op, ctl(depth - 1)))
+        return (q, (op, ctl(depth - 1), ctl(depth - 1)))
+
+    if logic == 'PL':
+        return pl(depth)
+    if logic == 'LTL':
+        g = ltl(depth)
+        return ('A', g) if r.random() < 0.3 else g
+    if logic == 'CTLS':
+        return ctls(depth)
+    return ctl(depth)
